@@ -123,7 +123,9 @@ class Executor(AccessMixin, BuiltinsMixin, StmtMixin, ExecutorBase):
             return SV(v.term, t)
         if name == "is_instance":
             v = self.ev(node.args[0], fr)
-            return SV(mk_bool(self.isinstance_(v, ast.Name(node.args[1].value), fr)), Ty("bool"))
+            cn = ast.Name(node.args[1].value)
+            cn.spec_class_name = True
+            return SV(mk_bool(self.isinstance_(v, cn, fr)), Ty("bool"))
         h = self.spec_funcs.get(name) if hasattr(self, "spec_funcs") else None
         if h is not None:
             from .api import Ctx
@@ -236,6 +238,11 @@ def loop_write_set(ex: Executor, stmts, fr: Frame, depth=0, seen=None) -> set:
                         continue
                     loc = fr.lookup(nm)
                     if loc is not None and loc.meta and loc.meta[0] in ("closure", "lambda"):
+                        ck = "closure@%d" % id(loc.meta[1])
+                        if seen is not None and ck in seen:
+                            continue            # recursive local function: already accounted for
+                        if seen is not None:
+                            seen.add(ck)
                         body = loc.meta[1].body
                         out |= loop_write_set(ex, body if isinstance(body, list) else [ast.Expr(body)], fr, depth + 1, seen)
                         continue
